@@ -82,7 +82,7 @@ Proof.
   - cbn [RSpec] in HS. cbn [RCap] in HC. destruct HS as (S1 & S2 & S3 & S4 & S5 & S6 & S7). destruct HC as (C1 & C2).
     unfold mi_iend in *.
     assert (Ok1 : hc_ok {| hc_h4 := h4; hc_h8 := h8; hc_endIdx := start + srcSize; hc_dirty := if ret <=? 0 then true else hc_dirty c |}).
-    { right. cbn. split; [lia|]. split; assumption. }
+    { right. cbn. split; [lia|]. split; eapply tab_lt_mono; eauto; lia. }
     cbn [hr_ctx hr_hw hr_ret hr_out hr_consumed].
     split.
     { destruct lim; try exact Ok1.
